@@ -419,7 +419,7 @@ def _parseNormalTextgrid(data: str) -> Dict:
     tiers = []
     tierList = re.split(r"item ?\[", data, flags=re.MULTILINE)[1:]
     for tierTxt in tierList:
-        if 'class = "IntervalTier"' in tierTxt:
+        if re.search(r'class ?= ?"IntervalTier"', tierTxt):
             tierType = INTERVAL_TIER
             searchWord = r"intervals ?\["
         else:
